@@ -54,6 +54,28 @@ def build_request(req, rcpt, sender, etype, ever):
     return cls(recipient=FI.addr(rcpt), sender=FI.addr(sender), econet_type=etype, econet_version=ever, data=data)
 
 
+async def _live_schedule_request(req):
+    """the set-schedule request as the library itself builds it: data = the live Schedule / switch / parameter objects of a
+    real ecoMAX that has received this schedule (Schedule.commit())"""
+    from pyplumio.devices.ecomax import EcoMAX
+    from pyplumio.frames.responses import SchedulesResponse
+    from pyplumio.structures.network_info import NetworkInfo
+    from pyplumio.structures.schedules import SCHEDULES
+    _, idx, switch, param, days = req
+    q = asyncio.Queue()
+    dev = EcoMAX(q, network=NetworkInfo())
+    payload = model.call("enc_schedules", [0, 0, [[idx, switch, [[param, 0, 255]], days]]])
+    dev.handle_frame(SchedulesResponse(message=bytearray(payload)))
+    for _ in range(6):
+        pending = [t for t in dev.tasks if not t.done()]
+        if pending:
+            await asyncio.gather(*pending, return_exceptions=True)
+        await asyncio.sleep(0)
+    await dev.data["schedules"][SCHEDULES[idx]].commit()
+    frame = q.get_nowait()
+    return frame
+
+
 async def _write_through(frame):
     from pyplumio.stream import FrameWriter
     w = FakeWriter()
@@ -111,6 +133,10 @@ class C02(Prop):
             cases.append({"kind": "request:%d" % tag, "req": req, "rcpt": rng.choice([0x45, 0, 0x51, rng.randrange(256)]),
                           "sender": rng.choice([0x56, rng.randrange(256)]), "etype": rng.choice([48, rng.randrange(256)]),
                           "ever": rng.choice([5, rng.randrange(256)])})
+            if tag == 7 and rng.random() < 0.4:
+                # the same request as Schedule.commit() of a real device builds it (live objects as data; addressed to the ecoMAX)
+                cases.append({"kind": "request:7:live", "req": [7, req[1], req[2], req[3] if req[3] != 255 else 254, req[4]], "rcpt": 0x45,
+                              "sender": 0x56, "etype": 48, "ever": 5, "live": True})
         # the two responses the library builds from data: device available (every network configuration) and program version;
         # their payload is the Coq encoder's, the frame is built by the library from the data objects
         for _ in range(60 if tier == "quick" else 1500):
@@ -136,7 +162,7 @@ class C02(Prop):
         # the second serialisation must be that of the fields it has then
         reused = []
         for c in cases:
-            if rng.random() >= 0.25 or c["kind"].startswith("response:"):
+            if rng.random() >= 0.25 or c["kind"].startswith("response:") or c.get("live"):
                 continue
             d = dict(c)
             hdr = {"rcpt": rng.choice([0x45, 0, 0x51, rng.randrange(256)]), "sender": rng.choice([0x56, 0x45, rng.randrange(256)]),
@@ -189,6 +215,8 @@ class C02(Prop):
                     if "req" in pre:
                         fresh = build_request(case["req"], case["rcpt"], case["sender"], case["etype"], case["ever"])
                         frame.data = fresh._data
+            elif case.get("live"):
+                frame = vloop.run(_live_schedule_request, case["req"])
             elif "from_net" in case:
                 from harness.c09 import net_to_params
                 from pyplumio.frames.responses import DeviceAvailableResponse
@@ -281,7 +309,7 @@ class C02(Prop):
         suspends) must appear on the wire as whole frames, one after the other, in some order."""
         fails = []
         self._concurrent = 0
-        pool = [c for c in self.generate(rng, "quick") if (c["kind"].startswith("request:") or c["kind"] == "envelope") and "pre" not in c]
+        pool = [c for c in self.generate(rng, "quick") if (c["kind"].startswith("request:") or c["kind"] == "envelope") and "pre" not in c and not c.get("live")]
         long_ones = [c for c in pool if c["kind"] == "request:7" or (c["kind"] == "envelope" and len(c["f"][5]) > 40)]
         for _ in range(40 if tier == "quick" else 600):
             chosen = [rng.choice(long_ones)] + [rng.choice(pool) for _ in range(rng.choice([1, 2]))]
